@@ -189,4 +189,291 @@ theorem iterFrom_panic {W : Nat} (s : St) (k : Nat) (hk : ¬ k ≤ s.len) :
   unfold iterFrom fwdNew
   rw [if_pos (by omega)]; rfl
 
+/-! ## reverse iterator -/
+
+theorem testBit_rotl {W : Nat} (hW : 0 < W) (x n : Nat) (hx : x < 2 ^ W) (hn : n ≤ W) (j : Nat) :
+    (rotl W x n).testBit j
+      = (decide (j < W) && x.testBit (if n ≤ j then j - n else j + W - n)) := by
+  unfold rotl
+  simp only
+  by_cases h0 : n % W = 0
+  · have : (n % W == 0) = true := by simp [h0]
+    rw [this, if_pos rfl]
+    have hn' : n = 0 ∨ n = W := by
+      by_cases hnW : n < W
+      · left; rw [Nat.mod_eq_of_lt hnW] at h0; exact h0
+      · right; omega
+    by_cases hj : j < W
+    · rcases hn' with rfl | rfl
+      · simp [hj]
+      · have : ¬ n ≤ j := by omega
+        rw [if_neg this]
+        simp [hj]
+    · rw [testBit_ge_of_lt hx (by omega)]; simp [hj]
+  · have : (n % W == 0) = false := by simp [h0]
+    rw [this]
+    simp only [Bool.false_eq_true, if_false]
+    have hnW : n < W := by
+      rcases Nat.lt_or_ge n W with h | h
+      · exact h
+      · have : n = W := by omega
+        rw [this, Nat.mod_self] at h0; exact absurd rfl h0
+    rw [Nat.mod_eq_of_lt hnW, Nat.testBit_or, testBit_shlW, Nat.testBit_shiftRight]
+    by_cases hj : j < W
+    · by_cases hnj : n ≤ j
+      · rw [if_pos hnj, testBit_ge_of_lt hx (by omega : W ≤ W - n + j)]
+        simp [hj, hnj]
+      · rw [if_neg hnj]
+        have : W - n + j = j + W - n := by omega
+        simp [hj, hnj, this]
+    · rw [testBit_ge_of_lt hx (by omega : W ≤ W - n + j)]
+      simp [hj]
+
+theorem rotl_lt {W : Nat} (x n : Nat) (hx : x < 2 ^ W) : rotl W x n < 2 ^ W := by
+  unfold rotl
+  simp only
+  split
+  · exact hx
+  · exact Nat.or_lt_two_pow (shlW_lt _ _ _) (shiftRight_lt _ hx)
+
+/-- the top `fill` bits of the window are the `fill` bits of the stream just below position `p`
+(the low bits are already-consumed garbage); the current word starts at `p - fill` -/
+def RevInv (W : Nat) (ws : Array Nat) (it : FwdIt) (p : Nat) : Prop :=
+  it.fill ≤ W ∧ it.wi * W + it.fill = p ∧ it.window < 2 ^ W ∧
+    ∀ j, W - it.fill ≤ j → j < W → it.window.testBit j = bitAt W ws (p + j - W)
+
+theorem revNew_ok {W : Nat} (hW : 0 < W) (s : St) (h : s.WInv W) (hb0 : 0 < s.bw) (i : Nat)
+    (hi0 : 0 < i) (hi : i ≤ s.len) :
+    ∃ it, revNew W s i = .ok it ∧ RevInv W s.words it (i * s.bw) := by
+  obtain ⟨hbw, hlen, h1, hok⟩ := h
+  unfold revNew
+  have hne : (i == 0) = false := by simp; omega
+  rw [if_neg (by omega), hne]
+  simp only [Bool.false_eq_true, if_false]
+  have hp : i * s.bw ≤ W * s.words.size := Nat.le_trans (Nat.mul_le_mul_right _ hi) hlen
+  have hp1 : 1 ≤ i * s.bw := Nat.mul_le_mul hi0 hb0
+  generalize i * s.bw = p at *
+  have hwi : (p - 1) / W < s.words.size := div_lt_of_lt_mul' (by omega)
+  rw [readU_of_lt _ _ hwi]
+  simp only [Out.bind_ok, Out.pure_eq]
+  have hd := div_mod_decomp hW (p - 1)
+  have hc : (p - 1) / W * W = W * ((p - 1) / W) := Nat.mul_comm _ _
+  refine ⟨_, rfl, ?_, ?_, shlW_lt _ _ _, ?_⟩
+  · show (p - 1) % W + 1 ≤ W
+    omega
+  · show (p - 1) / W * W + ((p - 1) % W + 1) = p
+    omega
+  · intro j hj1 hj2
+    simp only at hj1
+    show (shlW W (s.words.getD ((p - 1) / W) 0) (W - ((p - 1) % W + 1))).testBit j = _
+    rw [testBit_shlW]
+    have ht : j - (W - ((p - 1) % W + 1)) < W := by omega
+    have : p + j - W = (p - 1) / W * W + (j - (W - ((p - 1) % W + 1))) := by omega
+    unfold bitAt
+    rw [this, (mul_div_mod_eq hW ht).1, (mul_div_mod_eq hW ht).2]
+    simp [hj1, hj2]
+
+theorem revNext_ok {W : Nat} (hW : 0 < W) (s : St) (hbw : s.bw ≤ W) (hb0 : 0 < s.bw)
+    (hok : WordsOK W s.words) (it : FwdIt) (p : Nat) (hI : RevInv W s.words it p)
+    (hp1 : s.bw ≤ p) (hp2 : p ≤ W * s.words.size) :
+    ∃ it', revNext W s it = .ok (fieldAt W s.words (p - s.bw) s.bw, it') ∧
+      RevInv W s.words it' (p - s.bw) := by
+  obtain ⟨hfW, hpos, hwlt, hwin⟩ := hI
+  unfold revNext
+  simp only
+  rw [maskOf_eq W s.bw hbw]
+  by_cases hf : it.fill ≥ s.bw
+  · rw [if_pos hf]
+    have hval : rotl W it.window s.bw &&& lowMask s.bw = fieldAt W s.words (p - s.bw) s.bw := by
+      apply Nat.eq_of_testBit_eq
+      intro j
+      rw [Nat.testBit_and, testBit_rotl hW _ _ hwlt hbw, testBit_lowMask, testBit_fieldAt]
+      by_cases hj : j < s.bw
+      · have h1 : ¬ s.bw ≤ j := by omega
+        have h2 : j < W := by omega
+        rw [if_neg h1, hwin _ (by omega) (by omega)]
+        rw [show p + (j + W - s.bw) - W = p - s.bw + j by omega]
+        simp [hj, h2]
+      · simp [hj]
+    rw [hval]
+    refine ⟨_, rfl, ?_, ?_, rotl_lt _ _ hwlt, ?_⟩
+    · show it.fill - s.bw ≤ W
+      omega
+    · show it.wi * W + (it.fill - s.bw) = p - s.bw
+      omega
+    · intro j hj1 hj2
+      simp only at hj1
+      show (rotl W it.window s.bw).testBit j = _
+      rw [testBit_rotl hW _ _ hwlt hbw]
+      have h1 : s.bw ≤ j := by omega
+      rw [if_pos h1, hwin _ (by omega) (by omega)]
+      rw [show p + (j - s.bw) - W = p - s.bw + j - W by omega]
+      simp [hj2]
+  · rw [if_neg hf]
+    have hlt : it.fill < s.bw := by omega
+    have hwi0 : it.wi ≠ 0 := by
+      intro h0; rw [h0, Nat.zero_mul] at hpos; omega
+    have : (it.wi == 0) = false := by simp [hwi0]
+    rw [this]
+    simp only [Bool.false_eq_true, if_false]
+    obtain ⟨q, hq⟩ : ∃ q, it.wi = q + 1 := ⟨it.wi - 1, by omega⟩
+    rw [hq, Nat.succ_mul] at hpos
+    rw [hq, Nat.add_sub_cancel]
+    have hqs : q < s.words.size := by
+      apply Nat.lt_of_mul_lt_mul_left (a := W)
+      rw [Nat.mul_comm]; omega
+    rw [readU_of_lt _ _ hqs]
+    simp only [Out.bind_ok]
+    have hw' : ∀ t, t < W → bitAt W s.words (q * W + t) = (s.words.getD q 0).testBit t := by
+      intro t ht
+      unfold bitAt
+      rw [(mul_div_mod_eq hW ht).1, (mul_div_mod_eq hW ht).2]
+    by_cases hu : s.bw - it.fill = W
+    · have : (s.bw - it.fill == W) = true := by simp [hu]
+      rw [this, if_pos rfl]
+      simp only [Out.pure_eq]
+      have hval : s.words.getD q 0 &&& lowMask s.bw = fieldAt W s.words (p - s.bw) s.bw := by
+        apply Nat.eq_of_testBit_eq
+        intro j
+        rw [Nat.testBit_and, testBit_lowMask, testBit_fieldAt]
+        by_cases hj : j < s.bw
+        · rw [show p - s.bw + j = q * W + j by omega, hw' j (by omega)]
+          simp [hj]
+        · simp [hj]
+      rw [hval]
+      refine ⟨_, rfl, ?_, ?_, Nat.two_pow_pos W, ?_⟩
+      · show W - (s.bw - it.fill) ≤ W
+        omega
+      · show q * W + (W - (s.bw - it.fill)) = p - s.bw
+        omega
+      · intro j hj1 hj2
+        simp only at hj1
+        omega
+    · have : (s.bw - it.fill == W) = false := by simp [hu]
+      rw [this]
+      simp only [Bool.false_eq_true, if_false, Out.pure_eq]
+      have hval : (shlW W (rotl W it.window it.fill) (s.bw - it.fill) |||
+            (s.words.getD q 0 >>> (W - (s.bw - it.fill)))) &&& lowMask s.bw
+          = fieldAt W s.words (p - s.bw) s.bw := by
+        apply Nat.eq_of_testBit_eq
+        intro j
+        rw [Nat.testBit_and, Nat.testBit_or, testBit_shlW, testBit_rotl hW _ _ hwlt hfW,
+          Nat.testBit_shiftRight, testBit_lowMask, testBit_fieldAt]
+        by_cases hj : j < s.bw
+        · have h2 : j < W := by omega
+          by_cases hju : j < s.bw - it.fill
+          · have h1 : ¬ s.bw - it.fill ≤ j := by omega
+            have := hw' (W - (s.bw - it.fill) + j) (by omega)
+            rw [show q * W + (W - (s.bw - it.fill) + j) = p - s.bw + j by omega] at this
+            simp [hj, h1, this]
+          · have h1 : s.bw - it.fill ≤ j := by omega
+            rw [testBit_ge_of_lt (getD_lt hok q) (by omega : W ≤ W - (s.bw - it.fill) + j)]
+            have h3 : ¬ it.fill ≤ j - (s.bw - it.fill) := by omega
+            have h4 : j - (s.bw - it.fill) < W := by omega
+            rw [if_neg h3, hwin _ (by omega) (by omega)]
+            rw [show p + (j - (s.bw - it.fill) + W - it.fill) - W = p - s.bw + j by omega]
+            simp [hj, h1, h2, h4]
+        · simp [hj]
+      rw [hval]
+      refine ⟨_, rfl, ?_, ?_, shlW_lt _ _ _, ?_⟩
+      · show W - (s.bw - it.fill) ≤ W
+        omega
+      · show q * W + (W - (s.bw - it.fill)) = p - s.bw
+        omega
+      · intro j hj1 hj2
+        simp only at hj1
+        show (shlW W (s.words.getD q 0) (s.bw - it.fill)).testBit j = _
+        rw [testBit_shlW]
+        have h1 : s.bw - it.fill ≤ j := by omega
+        have := hw' (j - (s.bw - it.fill)) (by omega)
+        rw [show q * W + (j - (s.bw - it.fill)) = p - s.bw + j - W by omega] at this
+        simp [hj2, h1, this]
+
+theorem revTake_ok {W : Nat} (hW : 0 < W) (s : St) (h : s.WInv W) (hb0 : 0 < s.bw) :
+    ∀ (i : Nat) (it : FwdIt), RevInv W s.words it (i * s.bw) → i ≤ s.len →
+      revTake W s i it = .ok ((List.range i).map (valAt W s.words s.bw)).reverse := by
+  intro i
+  induction i with
+  | zero => intro it _ _; rfl
+  | succ i ih =>
+    intro it hI hi
+    have hp2 : (i + 1) * s.bw ≤ W * s.words.size :=
+      Nat.le_trans (Nat.mul_le_mul_right _ hi) h.2.1
+    have hp1 : s.bw ≤ (i + 1) * s.bw := by rw [Nat.succ_mul]; omega
+    obtain ⟨it', e, hI'⟩ := revNext_ok hW s h.1 hb0 h.2.2.2 it _ hI hp1 hp2
+    have hsub : (i + 1) * s.bw - s.bw = i * s.bw := by rw [Nat.succ_mul]; omega
+    rw [hsub] at e hI'
+    have := ih it' hI' (by omega)
+    show (revNext W s it >>= _) = _
+    rw [e]
+    simp only [Out.bind_ok]
+    rw [this]
+    simp only [Out.bind_ok, Out.pure_eq]
+    rw [List.range_succ, List.map_append, List.reverse_append, List.map_singleton,
+      List.reverse_singleton, List.singleton_append, valAt_eq_fieldAt]
+
+theorem revTake_zero_width {W : Nat} (s : St) (hb0 : s.bw = 0) :
+    ∀ (n : Nat) (it : FwdIt), revTake W s n it = .ok (List.replicate n 0) := by
+  intro n
+  induction n with
+  | zero => intro it; rfl
+  | succ n ih =>
+    intro it
+    have hm : maskOf W s.bw = 0 := by rw [hb0]; rfl
+    have e : ∃ it', revNext W s it = .ok (0, it') := by
+      unfold revNext
+      simp only
+      rw [if_pos (by omega), hm, Nat.and_zero]
+      exact ⟨_, rfl⟩
+    obtain ⟨it', e⟩ := e
+    show (revNext W s it >>= _) = _
+    rw [e]
+    simp only [Out.bind_ok]
+    rw [ih it']
+    rfl
+
+theorem vals_take (W : Nat) (s : St) (k : Nat) (hk : k ≤ s.len) :
+    (s.vals W).take k = (List.range k).map (valAt W s.words s.bw) := by
+  unfold St.vals
+  rw [← List.map_take, List.take_range, Nat.min_eq_left hk]
+
+theorem revIterFrom_ok {W : Nat} (hW : 0 < W) (s : St) (h : s.WInv W) (k : Nat) (hk : k ≤ s.len) :
+    revIterFrom W s k = .ok ((s.vals W).take k).reverse := by
+  unfold revIterFrom
+  rw [vals_take W s k hk]
+  by_cases hk0 : k = 0
+  · subst hk0
+    unfold revNew
+    rw [if_neg (by omega)]
+    rfl
+  · by_cases hb0 : s.bw = 0
+    · -- width 0: every value is 0
+      have e : ∃ it, revNew W s k = .ok it := by
+        unfold revNew
+        have hne : (k == 0) = false := by simp [hk0]
+        rw [if_neg (by omega), hne]
+        simp only [Bool.false_eq_true, if_false]
+        have : (k * s.bw - 1) / W = 0 := by rw [hb0]; simp
+        rw [this, readU_of_lt _ _ (h.2.2.1 hb0)]
+        exact ⟨_, rfl⟩
+      obtain ⟨it, e⟩ := e
+      rw [e]
+      simp only [Out.bind_ok]
+      rw [revTake_zero_width s hb0]
+      have : (List.range k).map (valAt W s.words s.bw) = List.replicate k 0 := by
+        rw [hb0]
+        apply List.ext_getElem
+        · simp
+        · intro i h1 h2; simp [valAt_zero_width]
+      rw [this, List.reverse_replicate]
+    · obtain ⟨it, e, hI⟩ := revNew_ok hW s h (by omega) k (by omega) hk
+      rw [e]
+      simp only [Out.bind_ok]
+      exact revTake_ok hW s h (by omega) k it hI hk
+
+theorem revIterFrom_panic {W : Nat} (s : St) (k : Nat) (hk : ¬ k ≤ s.len) :
+    revIterFrom W s k = .panic := by
+  unfold revIterFrom revNew
+  rw [if_pos (by omega)]; rfl
+
 end Sux.BFV
